@@ -19,8 +19,8 @@ ENCODED = ["twisted.internet.base:ReactorBase.callLater",
            "twisted.internet.base:DelayedCall.delay", "twisted.internet.base:DelayedCall.activate_delay",
            "twisted.internet.base:DelayedCall.getTime", "twisted.internet.base:DelayedCall.active",
            "twisted.internet.base:DelayedCall.__le__", "twisted.internet.base:DelayedCall.__lt__"]
-BOUNDS = {"quick": {"n": 3, "ni": 2, "tot": 3, "tot_in": 2, "m": 1, "nd": 1},
-          "thorough": {"n": 4, "ni": 3, "tot": 5, "tot_in": 4, "m": 2, "nd": 1}}
+BOUNDS = {"quick": {"n": 3, "ni": 2, "tot": 3, "tot_in": 2, "m": 1, "nd": 1, "ks": 7},
+          "thorough": {"n": 4, "ni": 3, "tot": 4, "tot_in": 3, "m": 2, "nd": 1, "ks": 7}}
 B = {}
 PADS = 51           # concrete cancelled far-future heap entries used to reach the compaction branch
 FAR = 1.0e9         # their time; all symbolic times and the clock stay below it in step_compact
@@ -272,7 +272,7 @@ def history(t0: float, n: int, d0: float, d1: float, d2: float, d3: float, tm: b
     pre: 0 <= act <= 4 and 0 <= tgt < n and -1 <= who < n and (tgt == 0 or 1 <= act <= 3)
     pre: -BIG <= t0 <= BIG and -BIG <= r <= BIG and (r >= 0 or act == 3)
     pre: 0 <= a1 <= BIG and 0 <= a2 <= BIG
-    pre: who == -1 or not tm
+    pre: (who == -1 or not tm) and (act != 0 or who == -1)
     pre: n <= B['ni'] or (who == -1 and (tm or act == 0))
     post: _
     """
@@ -454,6 +454,25 @@ def step_compact(now: float, k: int, m: int, cm: int, drift: int,
     return bool(W.ok)
 
 
+def step_sift(now: float, k: int, t0: float, t1: float, t2: float, t3: float, t4: float, t5: float,
+              t6: float, act: int, tgt: int, r: float) -> bool:
+    """
+    pre: 4 <= k <= B['ks'] and 2 <= act <= 3 and 0 <= tgt < k
+    pre: -BIG <= now <= BIG and -BIG <= r <= BIG and (r >= 0 or act == 3)
+    pre: _state_pre(B['ks'], k, 0, 0, 0, (t0, t1, t2, t3, t4, t5, t6), (), -1, 0.0, -1, 0.0)
+    post: _
+    """
+    # deeper heaps (two- and three-level sift-up in _moveCallLaterSooner), all entries active and undelayed
+    k = _pick(k, 4, B['ks'])
+    act = _pick(act, 2, 3)
+    tgt = _pick(tgt, 0, k - 1)
+    W = _build(now, k, 0, 0, 0, (t0, t1, t2, t3, t4, t5, t6), (), -1, 0.0, -1, 0.0, 0)
+    W.modify(act, tgt, r)
+    W.check()
+    cover()
+    return bool(W.ok)
+
+
 def _hist_shards(tier):
     n = BOUNDS[tier]["n"]
     out = [("act == 0",), ("act == 1", "who == -1"), ("act == 4", "who == -1")]
@@ -471,6 +490,9 @@ HARNESSES = [
       timeout={"quick": 90, "thorough": 1200}),
     H(step_run, shards=lambda tier: [("act == %d" % a,) for a in range(6)],
       timeout={"quick": 90, "thorough": 1200}),
-    H(step_compact, shards=lambda tier: [("act == %d" % a,) for a in (0, 1, 5)],
+    H(step_sift, shards=lambda tier: [("act == 2",), ("act == 3",)], timeout={"quick": 90, "thorough": 1200}),
+    H(step_compact, shards=lambda tier: [("act == 0", "k + m == %d" % BOUNDS[tier]["tot"]),
+                                         ("act == 0", "k + m < %d" % BOUNDS[tier]["tot"]),
+                                         ("act == 1",), ("act == 5",)],
       timeout={"quick": 90, "thorough": 1200}, labels=("end", "compacted")),
 ]
